@@ -26,3 +26,73 @@ def sim_lazy_pool():
         _SIM_LP = sched.load_module_under_shims(LAZY_POOL_PY,
                                                 "verif_sim_lazy_pool")
     return _SIM_LP
+
+
+VERIF = os.path.dirname(os.path.dirname(os.path.abspath(__file__)))
+BUILT_SO = os.path.join(VERIF, ".build", "_sedpack_rs.so")
+_SEDPACK = None
+RUST_SOURCE = "none"
+
+
+def build_rust() -> None:
+    """(Re)build the extension from the working tree (incremental, ~0.1 s
+    when nothing changed)."""
+    import subprocess
+    env = dict(os.environ)
+    env["VERIF_REPO"] = REPO
+    subprocess.run([os.path.join(VERIF, "tools", "build_rust.sh")], env=env,
+                   check=True, timeout=900, capture_output=True)
+
+
+def _preseed_rust() -> None:
+    """Make `from sedpack import _sedpack_rs` resolve to the extension built
+    from the working tree (fallback: the one lying in the tree; last resort a
+    stub so that non-Rust checks still import)."""
+    global RUST_SOURCE
+    import glob
+    import importlib.machinery
+    import importlib.util
+    import types
+    name = "sedpack._sedpack_rs"
+    candidates = [BUILT_SO] + sorted(
+        glob.glob(os.path.join(SRC, "sedpack", "_sedpack_rs*.so")))
+    for path in candidates:
+        if os.path.exists(path):
+            try:
+                loader = importlib.machinery.ExtensionFileLoader(name, path)
+                spec = importlib.util.spec_from_loader(name, loader,
+                                                       origin=path)
+                mod = importlib.util.module_from_spec(spec)
+                loader.exec_module(mod)
+                sys.modules[name] = mod
+                RUST_SOURCE = path
+                return
+            except ImportError:
+                continue
+    stub = types.ModuleType(name)
+
+    class RustIter:  # pylint: disable=too-few-public-methods
+        @staticmethod
+        def supported_compressions():
+            return []
+
+    stub.RustIter = RustIter
+    sys.modules[name] = stub
+    RUST_SOURCE = "stub"
+
+
+def sedpack_io():
+    """Import sedpack.io from the working tree (once per process)."""
+    global _SEDPACK
+    if _SEDPACK is None:
+        os.environ.setdefault("TF_CPP_MIN_LOG_LEVEL", "3")
+        ensure_src_on_path()
+        _preseed_rust()
+        import sedpack
+        import sedpack.io  # pylint: disable=redefined-outer-name
+        assert os.path.realpath(sedpack.__file__).startswith(
+            os.path.realpath(SRC)), sedpack.__file__
+        import logging
+        logging.getLogger("sedpack.io.Dataset").setLevel(logging.ERROR)
+        _SEDPACK = sedpack
+    return _SEDPACK.io
